@@ -1218,3 +1218,82 @@ def exc_program(cfg=None):
         g = GE(draw, cfg)
         return g.scenario()
     return strat()
+
+
+# ======================================================================================
+# numeric profile (C14): special doubles reached by arithmetic
+# ======================================================================================
+SPECIALS = [
+    ("un", "-", ("num", 0.0)),                                  # -0
+    ("bin", "*", ("num", 0.0), ("un", "-", ("num", 1.0))),      # -0
+    ("num", 0.0),
+    ("bin", "/", ("num", 1.0), ("num", 0.0)),                   # inf
+    ("bin", "/", ("un", "-", ("num", 1.0)), ("num", 0.0)),      # -inf
+    ("bin", "/", ("num", 0.0), ("num", 0.0)),                   # NaN
+    ("bin", "-", ("bin", "/", ("num", 1.0), ("num", 0.0)), ("bin", "/", ("num", 1.0), ("num", 0.0))),  # NaN
+    ("num", 5e-324),
+    ("bin", "/", ("num", 5e-324), ("num", 2.0)),                # underflow to 0
+    ("num", 9007199254740993.0),
+    ("bin", "+", ("num", 9007199254740992.0), ("num", 1.0)),
+    ("bin", "+", ("num", 0.1), ("num", 0.2)),
+    ("num", 0.3),
+    ("bin", "*", ("num", 1e308), ("num", 10.0)),                # inf by overflow
+    ("num", 1.0), ("num", 2.0), ("num", 0.5), ("un", "-", ("num", 1.0)),
+    ("bin", "-", ("num", 0.0), ("num", 0.0)),
+    ("un", "-", ("bin", "/", ("num", 0.0), ("num", 0.0))),      # -NaN
+]
+
+
+class GN(G):
+    def __init__(self, draw, cfg=None):
+        G.__init__(self, draw, cfg or Cfg(max_depth=2, p_confuse=0))
+
+    def special(self):
+        e = self.pick(SPECIALS)
+        if self.chance(25):
+            e = ("bin", self.pick(["+", "-", "*", "/"]), e, self.pick(SPECIALS))
+        return e
+
+    def scenario(self):
+        out = []
+        names = []
+        for _ in range(self.i(2, 5)):
+            v = self.fresh("x")
+            out.append(("let", v, self.special()))
+            names.append(v)
+        for _ in range(self.i(3, 12)):
+            a, b = ("var", self.pick(names)), ("var", self.pick(names))
+            c = self.i(0, 99)
+            if c < 25:
+                out.append(("print", ("bin", self.pick(["==", "!=", "<", "<=", ">", ">="]), a, b)))
+            elif c < 45:
+                m = self.fresh("m")
+                out.append(("let", m, ("map", [])))
+                out.append(("expr", ("assign", ("index", ("var", m), a), ("num", 1.0))))
+                out.append(("print", ("call", ("prop", ("var", m), "has"), [b])))
+                out.append(("print", ("call", ("prop", ("var", m), "get"), [b])))
+                out.append(("expr", ("assign", ("index", ("var", m), b), ("num", 2.0))))
+                out.append(("print", ("call", ("prop", ("var", m), "len"), [])))
+                out.append(("try", [("print", ("index", ("var", m), a))],
+                            [("e", None, [("print", ("call", ("prop", ("call", ("prop", ("var", "e"), "cls"), []), "name"), []))])]))
+            elif c < 55:
+                out.append(("print", ("call", ("prop", ("map", [(a, ("num", 1.0)), (b, ("num", 2.0))]), "len"), [])))
+            elif c < 68:
+                out.append(("print", ("call", ("prop", ("list", [a, ("str", "s"), ("nil",)]), self.pick(["has", "index"])), [b])))
+            elif c < 75:
+                out.append(("print", ("call", ("prop", ("tuple", [a, ("true",)]), self.pick(["has", "index"])), [b])))
+            elif c < 85:
+                out.append(("print", ("interp", ["v=", a, " ", ("bin", "+", a, b)])))
+            elif c < 92:
+                out.append(("print", ("call", ("prop", a, self.pick(["floor", "ceil", "round", "str"])), [])))
+            else:
+                out.append(("print", ("tern", ("bin", "==", a, b), ("str", "eq"), ("str", "ne"))))
+        return out
+
+
+def numeric_program(cfg=None):
+    @st.composite
+    def strat(draw):
+        g = GN(draw, cfg)
+        return g.scenario()
+    return strat()
